@@ -245,6 +245,9 @@ func (r *Report) Finish() int {
 		"rule":                    "one evaluation per rule instance (obligation) found in /repo's current source; all are distinct by (rule, configuration, subject)",
 	}
 	for k, v := range r.Extra {
+		if strings.HasPrefix(k, "once:") {
+			continue // internal run-once markers
+		}
 		cov[k] = v
 	}
 	if len(r.Info) > 0 {
